@@ -592,17 +592,17 @@ pub mod unit_stats {
         //@closure 1 params="x: T" ret="(r: Fl)"
         //@| requires x.f32_of() is Some
         //@| ensures r == x.f32_of()->Some_0
-        //@anchor m0 scope=fn pos=after match="^let f32_sample ="
+        //@anchor m0 scope=fn pos=after match="\\. mapv \\("
         //@| let ghost (c, n, d) = vdim3(sample);
         //@| let ghost cx = conv3(v3(sample), c, n, d);
         //@| proof {
-        //@|     assert forall |i: int| 0 <= i < c implies (#[trigger] a3(f32_sample)[i]) =~= cx[i] by {
-        //@|         assert(rect2(a3(f32_sample)[i], n, d));
-        //@|         assert forall |j: int| 0 <= j < n implies (#[trigger] a3(f32_sample)[i][j]) =~= cx[i][j] by {
-        //@|             assert forall |k: int| 0 <= k < d implies (#[trigger] a3(f32_sample)[i][j][k]) == cx[i][j][k] by {}
+        //@|     assert forall |i: int| 0 <= i < c implies (#[trigger] a3($lhs)[i]) =~= cx[i] by {
+        //@|         assert(rect2(a3($lhs)[i], n, d));
+        //@|         assert forall |j: int| 0 <= j < n implies (#[trigger] a3($lhs)[i][j]) =~= cx[i][j] by {
+        //@|             assert forall |k: int| 0 <= k < d implies (#[trigger] a3($lhs)[i][j][k]) == cx[i][j][k] by {}
         //@|         }
         //@|     }
-        //@|     assert(a3(f32_sample) =~= cx);
+        //@|     assert(a3($lhs) =~= cx);
         //@|     assert(fin3(cx)) by {
         //@|         assert forall |i: int| 0 <= i < cx.len() implies fin2(#[trigger] cx[i]) by {
         //@|             assert forall |j: int| 0 <= j < cx[i].len() implies fin1(#[trigger] cx[i][j]) by {
